@@ -321,10 +321,9 @@ fn handle_xgroup_create(storage: &Arc<StorageEngine>, db: usize, parts: &[RespFr
     
     // Parse start ID
     let start_id = if id_str == "$" {
-        // Use the last entry's ID or 0-0 if empty
-        stream.last_entry()
-            .map(|e| e.id)
-            .unwrap_or(StreamId::new(0, 0))
+        // "$" is the last ID the stream generated, whether or not that entry
+        // is still there: only entries added from now on are delivered
+        stream.last_generated_id()
     } else if id_str == "0" || id_str == "0-0" {
         StreamId::new(0, 0)
     } else {
@@ -478,9 +477,7 @@ fn handle_xgroup_setid(storage: &Arc<StorageEngine>, db: usize, parts: &[RespFra
     
     // Parse the new ID
     let new_id = if id_str == "$" {
-        stream.last_entry()
-            .map(|e| e.id)
-            .unwrap_or(StreamId::new(0, 0))
+        stream.last_generated_id()
     } else {
         match StreamId::from_string(&id_str) {
             Some(id) => id,
